@@ -243,7 +243,7 @@ VOLUME = {   # tier -> (L1 cases, serial, fork, spawn)
     'thorough': (6000, 400, 120, 30),
 }
 L2_VOLUME = {'quick': 24, 'thorough': 250}     # scripted real ProcessExecutor runs (C04, C05, C10, C11)
-L2_PROPS = {'C01': [], 'C04': ['worker-limit-exceeded'], 'C05': ['idle-slot', 'dead-not-detected'], 'C11': ['dead-not-detected'], 'C10': ['started-after-failure']}
+L2_PROPS = {'C01': [], 'C04': ['worker-limit-exceeded', 'executor-state-shared'], 'C05': ['idle-slot', 'dead-not-detected', 'executor-state-shared'], 'C11': ['dead-not-detected'], 'C10': ['started-after-failure']}
 
 
 def nontrivial(case, obs):
@@ -364,6 +364,49 @@ def stage_die_with_monitor(report, dist, prop):
         shutil.rmtree(d, ignore_errors=True)
 
 
+def stage_lingering_worker(report, dist, prop):
+    """C11, directed: real fork workers that have handed back their result but whose process stays alive for a while (a
+    non-daemon helper thread still running).  The task is finished: its dependent must be started and run_tasks must return
+    without waiting for that process to go away."""
+    import shutil
+    import tempfile
+    import time
+    from labtech.lab import Lab
+    from common import subdir
+    d = tempfile.mkdtemp(dir=subdir('linger'))
+    linger_max, bound = 14.0, 7.0
+    try:
+        for workers, chain in ((1, True), (2, False)):
+            flag = os.path.join(d, f'flag_{workers}')
+            os.environ['LV_LINGER_FLAG'], os.environ['LV_LINGER_MAX'] = flag, str(linger_max)
+            a = U.TNx(label=1, beh='linger')
+            tasks = [U.TNx(label=2, deps=(a,), reads=(0,))] if chain else [a, U.TNx(label=2, beh='linger'), U.TNx(label=3)]
+            lab = Lab(storage=None, runner_backend='fork', max_workers=workers, continue_on_failure=True, notebook=False)
+            outcome, res = 'returned', None
+            t0 = time.monotonic()
+            try:
+                with S.watchdog(40):
+                    res = lab.run_tasks(tasks, disable_progress=True, disable_top=True)
+            except S.HarnessTimeout:
+                outcome = 'hang'
+            except BaseException as e:   # noqa
+                outcome = f'{type(e).__name__}: {e}'
+            took = time.monotonic() - t0
+            open(flag, 'w').close()
+            dist['lingering_worker_runs'] += 1
+            if outcome != 'returned' or res is None or len(res) != len(tasks) or took > bound:
+                report.violation(f'{prop}:no-termination',
+                                 f'fork backend, max_workers={workers}: every task had handed back its result within moments, the worker process of '
+                                 f'one stayed alive (a helper thread tidying up for up to {linger_max:.0f} s); run_tasks ended with {outcome} after {took:.1f} s '
+                                 f'(bound {bound:.0f} s), returned {None if res is None else len(res)} of {len(tasks)} tasks: it waited for a process whose task was over',
+                                 dict(level='lingering-worker', workers=workers, chain=chain, took=round(took, 2)))
+                return
+    finally:
+        os.environ.pop('LV_LINGER_FLAG', None)
+        os.environ.pop('LV_LINGER_MAX', None)
+        shutil.rmtree(d, ignore_errors=True)
+
+
 def run(prop, report, tier, seed, replay=None):
     spec = PROPS[prop]
     rng = rng_for(seed, prop, 'sched')
@@ -397,6 +440,10 @@ def run(prop, report, tier, seed, replay=None):
             return
     if prop in ('C10', 'C11') and (replay is None or replay['input'].get('level') == 'die-in-run'):
         stage_die_with_monitor(report, dist, prop)
+        if replay is not None:
+            return
+    if prop == 'C11' and (replay is None or replay['input'].get('level') == 'lingering-worker'):
+        stage_lingering_worker(report, dist, prop)
         if replay is not None:
             return
     if prop == 'C01' and (replay is None or replay['input'].get('level') == 'nested-names'):
